@@ -24,6 +24,10 @@ Families
          every combination of empty / non-empty arguments (placemarkers inside a chain)
   self   bodies that mention the macro itself (time-boxed, small batches: a runaway
          expansion must not starve the rest)
+  cycle  definition SETS that form cycles (2-, 3-, 4-cycles, a tail into a cycle) over
+         object-like and function-like macros x use (plain, argument of an identity macro,
+         nested, stringified, pasted, argument of a macro of the cycle, body of a later
+         macro, #if); time-boxed like self
 
 A case the oracle itself rejects (gcc prints an error located in the case: invalid
 paste, wrong argument count) or whose pasted token is a pp-token but not a C++ token
@@ -149,6 +153,8 @@ def invocations(sig, thorough):
 
 
 def key_of(c):
+    if c["fam"] == "cycle":
+        return "cycle|%s|%s|%s|%s" % (c["shape"], c["kinds"], c["bodyform"], c["use"])
     if c["fam"] == "dir":
         return "dir|%s|%s|%s" % (c["kind"], c["init"], ",".join(c["ops"]) or "-")
     return "%s|%s|%s|%s|%s" % (c["fam"], c["sig"], " ".join(c["body"]), c["form"],
@@ -191,6 +197,81 @@ def gen_fn(ln, thorough, which):
                     if fam != which:
                         continue
                 yield dict(fam=fam, sig=sig, body=list(body), form=form, args=list(args))
+
+
+# definition SETS that form cycles: shape -> (number of macros, successor of macro i)
+CYCLE_SHAPES = {
+    "cyc1": (1, [0]),                     # plain self-reference, as the base of the series
+    "cyc2": (2, [1, 0]),
+    "cyc3": (3, [1, 2, 0]),
+    "tail-cyc2": (3, [1, 2, 1]),          # entry macro leads into a 2-cycle
+    "tail-cyc3": (4, [1, 2, 3, 1]),
+    "cyc4": (4, [1, 2, 3, 0]),            # thorough only
+    "tail2-cyc2": (4, [1, 2, 3, 2]),      # thorough only
+}
+CYCLE_USES = ["plain", "idarg", "idarg2", "strarg", "pastel", "paster", "selfarg", "later",
+              "laterfn", "if"]
+
+
+def gen_cycle(thorough):
+    """Mutually recursive macros: every shape x every object-like/function-like
+    assignment x body form x use.  A conforming preprocessor leaves a macro name alone
+    once that macro is already being replaced (FIRST -> SECOND -> FIRST stops)."""
+    shapes = ["cyc1", "cyc2", "cyc3", "tail-cyc2", "tail-cyc3"] + \
+             (["cyc4", "tail2-cyc2"] if thorough else [])
+    for shape in shapes:
+        n = CYCLE_SHAPES[shape][0]
+        for kinds in itertools.product("of", repeat=n):
+            # body form "tok" (t<i> TARGET u<i>) makes every round of replacement visible in
+            # the output; the number of rounds does not depend on the length of the cycle,
+            # so it is crossed with the two shortest shapes only
+            for bodyform in (("bare", "tok") if shape in ("cyc1", "cyc2") else ("bare",)):
+                for use in CYCLE_USES:
+                    yield dict(fam="cycle", shape=shape, kinds="".join(kinds), bodyform=bodyform,
+                               use=use)
+
+
+def render_cycle(c, K):
+    n, succ = CYCLE_SHAPES[c["shape"]]
+    kinds = c["kinds"]
+    name = ["C%s%s" % ("abcd"[i], K) for i in range(n)]
+    L = []
+    for i in range(n):
+        t = succ[i]
+        if kinds[t] == "f":
+            tgt = "%s(%s)" % (name[t], "x" if kinds[i] == "f" else "1")
+        else:
+            tgt = name[t]
+        body = tgt if c["bodyform"] == "bare" else "t%d %s u%d" % (i, tgt, i)
+        L.append("#define %s%s %s" % (name[i], "(x)" if kinds[i] == "f" else "", body))
+    E = name[0] + ("(p)" if kinds[0] == "f" else "")        # the use of the entry macro
+    use = c["use"]
+    pre, line = [], None
+    if use == "plain":
+        line = "%s ;" % E
+    elif use == "idarg":
+        pre, line = ["#define I%s(x) x" % K], "I%s(%s) ;" % (K, E)
+    elif use == "idarg2":
+        pre, line = ["#define I%s(x) x" % K], "I%s(I%s(%s)) ;" % (K, K, E)
+    elif use == "strarg":
+        pre, line = ["#define S%s(x) #x x" % K], "S%s(%s) ;" % (K, E)
+    elif use == "pastel":
+        pre, line = ["#define P%s(x,y) x##y" % K], "P%s(,%s) ;" % (K, E)
+    elif use == "paster":
+        pre, line = ["#define P%s(x,y) x##y" % K], "P%s(%s,) ;" % (K, E)
+    elif use == "selfarg":      # the entry macro as argument of a macro of the cycle
+        j = kinds.find("f")
+        if j < 0:
+            pre, line = ["#define I%s(x) [x]" % K], "I%s(%s %s) ;" % (K, E, name[-1])
+        else:
+            line = "%s(%s) ;" % (name[j], E)
+    elif use == "later":
+        pre, line = ["#define L%s %s" % (K, E)], "L%s ;" % K
+    elif use == "laterfn":
+        pre, line = ["#define L%s(x) x %s" % (K, E)], "L%s(%s) ;" % (K, E)
+    elif use == "if":
+        line = "#if %s == 0\nint zero;\n#else\nint nonzero;\n#endif" % E
+    return L + pre + ["int __case_%s__;" % K] + line.split("\n"), [], None
 
 
 CHAIN_PARAMS = ["x", "y", "z"]
@@ -257,6 +338,7 @@ def stages(tier):
         st.append(("chain", nops, lambda nops=nops: gen_chain(nops, thorough)))
     for ln in range(1, n + 1):
         st.append(("self", ln, lambda ln=ln: gen_self(ln, thorough)))
+    st.append(("cycle", 4 if thorough else 3, lambda: gen_cycle(thorough)))
     return st
 
 
@@ -276,6 +358,8 @@ def render(c, k):
     lines = []
     defs = []
     unj = None
+    if c["fam"] == "cycle":
+        return render_cycle(c, K)
     if c["fam"] == "dir":
         kind = c["kind"]
         head = "M%s(x)" % K if kind == "fn" else "M%s" % K
@@ -557,17 +641,17 @@ def explore(ck):
     reported = {}
     unreported = {}
     dead = set()            # families cut short
-    k_next = 1
+    k_next = 1001       # four digits: no identifier of the alphabet ends like a case number
     self_box = 900 if thorough else 120
-    self_t0 = None
+    box_t0 = {}
     for fam, ln, thunk in stages(ck.tier):
         if ck.only and fam not in ck.only:
             continue
         if fam in dead:
             continue
-        is_self = fam == "self"
-        if is_self and self_t0 is None:
-            self_t0 = ck.elapsed()
+        is_self = fam in ("self", "cycle")      # time-boxed families
+        if is_self and fam not in box_t0:
+            box_t0[fam] = ck.elapsed()
         # self-referential macros get small batches and short limits: a runaway expansion
         # costs one small batch, and the whole family is time-boxed
         bsize = 20 if is_self else 300
@@ -582,8 +666,8 @@ def explore(ck):
                 dead.add(fam)
                 stage_done = False
                 break
-            if is_self and ck.elapsed() - self_t0 > self_box:
-                ck.cap("time box (%d s): family self stopped inside body length %d" % (self_box, ln))
+            if is_self and ck.elapsed() - box_t0[fam] > self_box:
+                ck.cap("time box (%d s): family %s stopped inside length %d" % (self_box, fam, ln))
                 dead.add(fam)
                 stage_done = False
                 break
@@ -619,13 +703,13 @@ def explore(ck):
                                     "observed": v.get("observed")})
                     if status in BAD:
                         if reported.get(fam, 0) < (20 if is_self else MAX_REPORTS):
-                            reported[fam] = reported.get(fam, 0) + 1
-                            report(ck, cfg, c, k, v, timeout)
+                            if report(ck, cfg, c, k, v, timeout) != "known":
+                                reported[fam] = reported.get(fam, 0) + 1
                         else:
                             unreported[fam] = unreported.get(fam, 0) + 1
             if is_self and reported.get(fam, 0) >= 20:
-                ck.cap("family self abandoned after 20 reported failures (each confirmed hang "
-                       "costs two 10x re-runs)")
+                ck.cap("family %s abandoned after 20 reported failures (each confirmed hang "
+                       "costs two 10x re-runs)" % fam)
                 dead.add(fam)
                 stage_done = False
                 break
@@ -647,7 +731,7 @@ def explore(ck):
              "and both preprocessors agree on it",
         exhaustive=True,
         bound="completed per family (body length in nodes; directive-sequence length for dir; "
-              "operands per paste chain for chain): %s"
+              "operands per paste chain for chain; macros per definition set for cycle): %s"
               % completed,
         assumptions=["gcc 12 -E -P -std=c++20 is the conforming preprocessor; for `,##__VA_ARGS__` "
                      "(and in the self family) either the ISO (-std=c++20) or the GNU "
@@ -655,6 +739,12 @@ def explore(ck):
                      "programs the oracle rejects, and programs whose expansion holds a pp-token "
                      "that is no C++ token (1p, \"s\"u), are ill-formed and counted as unjudged"],
         min_nontrivial=50)
+
+
+def stable(text, k):
+    """Observation with the per-case number taken out of the macro names (M1017 -> M#), so
+    that it can be quoted in known_findings.jsonl whatever the position of the case."""
+    return None if text is None else re.sub(r"(?<=[A-Za-z_])%d\b" % k, "#", text)
 
 
 def report(ck, cfg, c, k, v, timeout=10):
@@ -666,7 +756,8 @@ def report(ck, cfg, c, k, v, timeout=10):
             "lost": "output after the case marker is missing or duplicated",
             "asan": "sanitizer report / divergent output on the asan build"}.get(v["status"], v["status"])
     lines, defs, _ = render(c, k)
-    detail = {"observed": v.get("observed"), "expected": v.get("expected"), "status": v["status"],
+    detail = {"observed": stable(v.get("observed"), k), "expected": v.get("expected"),
+              "status": v["status"],
               "case": c, "k": k, "file": "\n".join(lines) + "\nint __case_0__;\n", "defs": defs,
               "stds": list(stds), "errors": v.get("errors"), "tool": v.get("tool"),
               "asan": v.get("asan"),
@@ -676,8 +767,8 @@ def report(ck, cfg, c, k, v, timeout=10):
     def again():
         # a time-out is only called a hang after a run alone with 10x the limit
         return run_single(cfg, c, k, stds, 10 * timeout, tag="c")["status"] in BAD
-    ck.fail(key, "%s: expected %s, observed %s" % (what, v.get("expected"), v.get("observed")),
-            detail, confirm=again)
+    return ck.fail(key, "%s: expected %s, observed %s" % (what, v.get("expected"), v.get("observed")),
+                   detail, confirm=again)
 
 
 def replay(ck, cfg):
